@@ -314,17 +314,23 @@ def bernHuge (env : BernEnv) (s : BernState) (n prec : Nat) (rnd : Option Rnd) (
     BernState × Res (BernPath × Mpf) :=
   if fault = some 0 then (s, .raised) else (s, .ok (.huge, env.huge n prec rnd))
 
-/-- the `while m <= n` loop on the entry `e` of `bernoulli_cache[wp]` followed by `return numbers[n]`.
-The entry object is mutated in place, so the cache sees every completed iteration even when a later
-one raises. -/
-def bernRunLoop (env : BernEnv) (s : BernState) (e : BernEntry) (wp n : Nat) (fault : Option Nat) :
-    BernState × Res (BernPath × Mpf) :=
+/-- the final statements of both return paths (after the repair of D14, commit 8bbd625):
+`if not rnd: return numbers[n]` / `return mpf_pos(numbers[n], prec, rnd)` -/
+def bernRound (v : Mpf) (prec : Nat) : Option Rnd → Mpf
+  | none => v
+  | some r => mpf_pos v prec r
+
+/-- the `while m <= n` loop on the entry `e` of `bernoulli_cache[wp]` followed by the return
+statements.  The entry object is mutated in place, so the cache sees every completed iteration even
+when a later one raises. -/
+def bernRunLoop (env : BernEnv) (s : BernState) (e : BernEntry) (wp n prec : Nat) (rnd : Option Rnd)
+    (fault : Option Nat) : BernState × Res (BernPath × Mpf) :=
   let r := bernLoop env wp n (n + 1) e fault
   let s' := s.set wp r.1
   if r.2 then
     match r.1.numbers n with
-    | some v => (s', .ok (.computed, v))          -- `return numbers[n]`: NOT rounded to prec
-    | none => (s', .pyError .value)               -- KeyError; unreachable (`bernRunLoop_no_keyError`)
+    | some v => (s', .ok (.computed, bernRound v prec rnd))
+    | none => (s', .pyError .value)               -- KeyError; unreachable (`bernRunLoop_outcome`)
   else (s', .raised)
 
 /-- the cached part of `mpf_bernoulli` (lines 423-475), `n` even, `2 ≤ n ≤ MAX_BERNOULLI_CACHE`. -/
@@ -336,14 +342,14 @@ def bernCached (env : BernEnv) (s : BernState) (n prec : Nat) (rnd : Option Rnd)
     match e.numbers n with
     | some v =>
       match rnd with
-      | none => (s, .ok (.cachedRaw, v))
-      | some r => (s, .ok (.cachedPos, mpf_pos v prec r))
+      | none => (s, .ok (.cachedRaw, bernRound v prec none))
+      | some r => (s, .ok (.cachedPos, bernRound v prec (some r)))
     | none =>
       if (n : Int) - (e.m : Int) > 10 then bernHuge env s n prec rnd fault
-      else bernRunLoop env s e wp n fault
+      else bernRunLoop env s e wp n prec rnd fault
   | none =>
     if n > 10 then bernHuge env s n prec rnd fault
-    else bernRunLoop env (s.set wp bernEntryInit) bernEntryInit wp n fault   -- entry registered before the loop
+    else bernRunLoop env (s.set wp bernEntryInit) bernEntryInit wp n prec rnd fault   -- entry registered before the loop
 
 /-- `mpf_bernoulli(n, prec, rnd)`, `n ≥ 0`.  `fault = some k` makes the k-th call that can raise
 (0-based; the `huge`/`frac` call, or the k-th loop body) raise. -/
